@@ -8,6 +8,7 @@ import (
 	"go/constant"
 	"go/token"
 	"go/types"
+	"regexp"
 	"strconv"
 	"strings"
 
@@ -27,6 +28,7 @@ type specEnv struct {
 	where    string
 	bound    map[string]Term
 	callSite bool
+	loopHead *ssa.BasicBlock
 }
 
 type specError struct{ msg string }
@@ -271,7 +273,7 @@ func (x *Exec) assumedOnly(cl *Clause) bool {
 }
 
 func (x *Exec) loopEnv(st *State, fr *Frame, head *ssa.BasicBlock) *specEnv {
-	env := &specEnv{x: x, st: st, vars: map[string]Val{}, frame: fr, pos: blockPos(head), old: st.entry, where: "loop in " + fr.fn.Name()}
+	env := &specEnv{x: x, st: st, vars: map[string]Val{}, frame: fr, pos: blockPos(head), old: st.entry, where: "loop in " + fr.fn.Name(), loopHead: head}
 	env.oldVars = map[string]Val{}
 	if len(st.frames) == 1 || true {
 		for _, p := range fr.fn.Params {
@@ -570,6 +572,18 @@ func (x *Exec) evalIdent(env *specEnv, n *ast.Ident, cl *Clause) Val {
 func (x *Exec) localByName(env *specEnv, name string) (Val, bool) {
 	fr := env.frame
 	var best *ssa.Alloc
+	if name == "rangeindex" && env.loopHead != nil {
+		// the hidden index of a range-over-slice loop: allocated in the block that enters this loop
+		for _, p := range env.loopHead.Preds {
+			for _, in := range p.Instrs {
+				if a, ok := in.(*ssa.Alloc); ok && a.Comment == "rangeindex" {
+					if ptr, has := fr.regs[a]; has {
+						return x.load(env.st, ptr, types.Typ[types.Int]), true
+					}
+				}
+			}
+		}
+	}
 	// resolve through go/types scopes at env.pos when possible
 	var obj types.Object
 	if env.pos.IsValid() {
@@ -803,6 +817,34 @@ func (x *Exec) evalCall(env *specEnv, n *ast.CallExpr, hint types.Type, cl *Clau
 		a := x.evalTerm(env, n.Args[1], hint, cl)
 		b := x.evalTerm(env, n.Args[2], a.Typ, cl)
 		return tIte(c, a, b)
+	case "trig":
+		// uninterpreted marker used only to steer quantifier instantiation (see forallp)
+		need(1)
+		st.declareOnce("trig", "(declare-fun trig ((_ BitVec 64)) Bool)")
+		return app(sBool, nil, "trig", x.widen64(st, arg(0, types.Typ[types.Int])))
+	case "forallp":
+		// forallp(i, lo, hi, pattern, body): forall with an explicit instantiation trigger
+		need(5)
+		id, ok := n.Args[0].(*ast.Ident)
+		if !ok {
+			x.specFail(cl, "forallp: first argument must be an identifier")
+		}
+		lo := x.widen64(st, arg(1, types.Typ[types.Int]))
+		hi := x.widen64(st, arg(2, types.Typ[types.Int]))
+		bv := Term{S: id.Name + "!q", Sort: sBV(64), Typ: types.Typ[types.Int]}
+		sub := *env
+		sub.bound = map[string]Term{}
+		for k, v := range env.bound {
+			sub.bound[k] = v
+		}
+		sub.bound[id.Name] = bv
+		save := st.x.noDef
+		st.x.noDef = true
+		pat := x.eval(&sub, n.Args[3], nil, cl).(Term)
+		body := x.evalBool(&sub, n.Args[4], cl)
+		st.x.noDef = save
+		rng := tAnd(app(sBool, nil, "bvsle", lo, bv), app(sBool, nil, "bvslt", bv, hi))
+		return Term{S: "(forall ((" + bv.S + " (_ BitVec 64))) (! " + tImplies(rng, body).S + " :pattern (" + pat.S + ")))", Sort: sBool}
 	case "forall", "exists":
 		// forall(i, lo, hi, body): lo <= i < hi as signed 64-bit ints; forallu for unsigned
 		need(4)
@@ -827,7 +869,12 @@ func (x *Exec) evalCall(env *specEnv, n *ast.CallExpr, hint types.Type, cl *Clau
 		st.x.noDef = save
 		rng := tAnd(app(sBool, nil, "bvsle", lo, bv), app(sBool, nil, "bvslt", bv, hi))
 		if fname == "forall" {
-			return Term{S: "(forall ((" + bv.S + " (_ BitVec 64))) " + tImplies(rng, body).S + ")", Sort: sBool}
+			inner := tImplies(rng, body).S
+			// trigger: a select whose index is exactly the bound variable, when there is one
+			if m := regexp.MustCompile(`\(select ([A-Za-z_][A-Za-z0-9_.!]*) `+regexp.QuoteMeta(bv.S)+`\)`).FindString(inner); m != "" {
+				inner = "(! " + inner + " :pattern (" + m + "))"
+			}
+			return Term{S: "(forall ((" + bv.S + " (_ BitVec 64))) " + inner + ")", Sort: sBool}
 		}
 		return Term{S: "(exists ((" + bv.S + " (_ BitVec 64))) " + tAnd(rng, body).S + ")", Sort: sBool}
 	case "len", "cap":
@@ -862,6 +909,12 @@ func (x *Exec) evalCall(env *specEnv, n *ast.CallExpr, hint types.Type, cl *Clau
 		sub.inOld = false
 		v, found := x.localByName(&sub, id.Name)
 		if !found {
+			// declared in the function but not (yet) allocated on this path: an unconstrained value
+			for _, a := range env.frame.fn.Locals {
+				if a.Comment == id.Name {
+					return st.freshVal(a.Type().(*types.Pointer).Elem(), "unalloc_"+id.Name)
+				}
+			}
 			x.specFail(cl, "now(%s): no such variable", id.Name)
 		}
 		return v
@@ -870,6 +923,15 @@ func (x *Exec) evalCall(env *specEnv, n *ast.CallExpr, hint types.Type, cl *Clau
 		need(1)
 		lv := x.evalLoc(env, exprStr(n.Args[0]), &Contract{File: cl.File, Line: cl.Line})
 		return st.asTerm(lv, nil)
+	case "off":
+		// offset of a slice within its backing array
+		need(1)
+		v := x.eval(env, n.Args[0], nil, cl)
+		s, ok := v.(*SliceV)
+		if !ok {
+			x.specFail(cl, "off() of a non-slice")
+		}
+		return retyped(s.Off, types.Typ[types.Int])
 	case "arr":
 		// backing array of a slice
 		need(1)
